@@ -59,6 +59,20 @@ def suite_valid(ctx):
                 s.count('rdbi-first:' + got1.split(' ')[0])
                 if got1 != want1:
                     s.fail({'site': 'read_data_by_identifier_first', 'input': line, 'generator': name, 'observed': got1, 'required': want1})
+                # ... also when the server lists the records in another order than they were asked for (the client accepts that: it compares sets)
+                recs = c.expect[len('rdbi '):].split(',')
+                if len(ids) >= 2 and len(set(ids)) == len(ids) and len(recs) == len(ids) and all((_d.DIDS.get(i_) or ('x', 1))[1] is not None for i_ in ids):
+                    parts = []
+                    for r_ in recs:
+                        d_, v_ = r_.split('=')
+                        parts.append(int(d_).to_bytes(2, 'big') + (bytes.fromhex(v_) if v_ != '-' else b''))
+                    rev = b''.join(reversed(parts))
+                    if rev != c.good:
+                        got2 = declib.run_reply(c1, rev)
+                        s.evaluations += 1
+                        s.count('rdbi-first-reordered:' + got2.split(' ')[0])
+                        if got2.startswith('ok') and got2 != want1:
+                            s.fail({'site': 'read_data_by_identifier_first', 'input': line + ' (records sent in reverse order)', 'generator': name, 'observed': got2, 'required': want1})
     core.compare(s, lines, core.drv_batch(lines), impl)
     for i in (0, len(lines) // 2, len(lines) - 1):
         s.sample({'line': lines[i], 'impl': impl[i]})
